@@ -290,8 +290,9 @@ func (t *streamableHTTPClientTransport) send(
 	if sessionID := httpResp.Header.Get(httputil.SessionIDHeader); sessionID != "" {
 		t.setSessionID(sessionID)
 		t.isStateless = false
-	} else if req.Method == MethodInitialize && !t.isStateless {
+	} else if req.Method == MethodInitialize && !t.isStateless && t.sessionID == "" {
 		// If this is an initialize request and no session ID was received, auto-detect as stateless mode
+		// (unless an id is already held: an issued session id is never dropped)
 		t.isStateless = true
 		t.enableGetSSE = false // Disable GET SSE in stateless mode
 	}
@@ -558,6 +559,7 @@ func (t *streamableHTTPClientTransport) sendNotification(ctx context.Context, no
 	// Handle session ID
 	if sessionID := httpResp.Header.Get(httputil.SessionIDHeader); sessionID != "" {
 		t.sessionID = sessionID
+		t.isStateless = false // a server that issues a session id is not stateless
 	}
 
 	// Check status code
